@@ -32,6 +32,11 @@ def get_lindblad_operators(
 
         dephasing[0, 0] = c
         dephasing[1, 1] = -c
+        # Pulser's operator is sqrt(2*rate)|r><r| (|d><d| in XY), which differs
+        # from this one by a multiple of the identity only if every other
+        # level, including the leakage level, carries +c as well.
+        for level in range(2, dim):
+            dephasing[level, level] = c
 
         return [dephasing]
 
